@@ -56,3 +56,69 @@ Lemma concurrent_nonvacuous :
   forall p h1 h2, let r := race_run (race_init p false h1 h2 false) [true; true; false; false] in
                   c_a r = PDone /\ c_b r = PDone.
 Proof. split; [vm_compute; reflexivity|]. intros. apply regist_race_finishes. Qed.
+
+(* ------------------------------------------------------------------ *)
+(* Overlapping pulls with consumers attached before the other registration (Model/C20Replaced.v). *)
+From V Require Import C20Replaced.
+Open Scope Z_scope.
+
+Lemma length_sexec ops : forall sp, (length (sp_streams sp) <= length (sp_streams (sexec sp ops)))%nat.
+Proof.
+  induction ops as [|o ops IH]; intros sp; [apply Nat.le_refl|].
+  cbn [sexec]. pose proof (length_step sp o). pose proof (IH (fst (sstep sp o))). lia.
+Qed.
+
+(* once its camera has ended (GUnregist j somewhere in the history) stream j is not live at the end *)
+Lemma ended_is_dead pre j ops :
+  (j < length (sp_streams (sexec sinit pre)))%nat -> In (GUnregist j) ops ->
+  st_live (sp_get (sexec sinit (pre ++ ops)) j) = false.
+Proof.
+  intros Hj Hin. apply in_split in Hin as (a & b & ->).
+  rewrite app_assoc, sexec_app. cbn [sexec]. rewrite unregist_step_kill.
+  assert (Hlen : (j < length (sp_streams (sexec sinit (pre ++ a))))%nat).
+  { rewrite sexec_app. pose proof (length_sexec a (sexec sinit pre)). lia. }
+  apply dead_forever; [rewrite length_kill; exact Hlen|].
+  rewrite live_kill, Nat.eqb_refl, andb_false_r. reflexivity.
+Qed.
+
+(* For every history that starts with the two pull streams (0 and 1, same path) and in which both
+   cameras end — whatever else happens in whatever order: the two registrations, any number of
+   consumers attaching to or leaving either stream before or after the other registration, lookups,
+   idle tasks, other publishers — at the end both streams have ended, every consumer that was
+   attached to either of them has been released (its Close called), none is attached, and no key
+   resolves to either of them. *)
+Theorem replaced_pull_releases_consumers : forall (p : bytes) (h0 h1 : bool) (ops : list gop),
+  In (GUnregist 0) ops -> In (GUnregist 1) ops ->
+  let sp := sexec sinit (GNew p h0 :: GNew p h1 :: ops) in
+  (forall i, (i < 2)%nat ->
+     st_live (sp_get sp i) = false /\ consumers (sp_get sp i) = 0 /\
+     released (sp_get sp i) = st_att_total (sp_get sp i)) /\
+  (forall k, sp_resolve sp k <> Some 0%nat /\ sp_resolve sp k <> Some 1%nat).
+Proof.
+  intros p h0 h1 ops H0 H1 sp.
+  assert (Hdead : forall i, (i < 2)%nat -> st_live (sp_get sp i) = false).
+  { intros i Hi. unfold sp. change (GNew p h0 :: GNew p h1 :: ops) with ([GNew p h0; GNew p h1] ++ ops).
+    apply ended_is_dead; [cbn; lia|]. destruct i as [|[|i]]; [exact H0|exact H1|lia]. }
+  split.
+  - intros i Hi. specialize (Hdead i Hi). split; [exact Hdead|].
+    destruct (registry_end_releases (GNew p h0 :: GNew p h1 :: ops)) as (_ & E & _).
+    destruct (E i Hdead) as (Er & Ef & El). fold sp in Er, Ef, El.
+    split; [unfold consumers; rewrite Er, Ef; reflexivity|exact El].
+  - intros k. split; intros Hr; unfold sp_resolve in Hr;
+      (destruct (mlookup (sp_last sp) k) as [x|]; [|discriminate]);
+      (destruct (st_live (sp_get sp x)) eqn:Hl; [|discriminate]); inversion Hr; subst x.
+    + rewrite (Hdead 0%nat) in Hl; [discriminate|lia].
+    + rewrite (Hdead 1%nat) in Hl; [discriminate|lia].
+Qed.
+
+(* the replayed scenarios are such histories, they are well-formed (so the implementation model of
+   the registry answers like the specification on them, C05), and their predicted observations meet
+   the demand the check applies *)
+Lemma repl_model_ok : forall a1 a2 e,
+  ok_repl a1 a2 e (repl_model a1 a2 e) = true /\
+  hist_wf sinit (repl_phase3 a1 a2 e) = true /\
+  In (GUnregist 0) (repl_phase3 a1 a2 e) /\ In (GUnregist 1) (repl_phase3 a1 a2 e).
+Proof.
+  intros a1 a2 e. destruct a1, a2, e; (split; [vm_compute; reflexivity|]);
+    (split; [vm_compute; reflexivity|]); split; vm_compute; tauto.
+Qed.
